@@ -5,6 +5,7 @@
 package rmon
 
 import (
+	"errors"
 	"fmt"
 	"math"
 	"math/big"
@@ -330,4 +331,89 @@ func Wrap(ccs constraint.ConstraintSystem) *Sys {
 		s.audit()
 	}
 	return s
+}
+
+// SolveFixPublic runs the solver like SolveWith. When the solve is rejected at a constraint in which the first
+// public wire (wire 1) occurs affinely, it also returns the value that wire would need for that constraint to hold,
+// computed from the wire values the solver had reached: this is how a monitor learns what a circuit "wants" its
+// public input to be under a forged hint table, without a probe inside the circuit under test.
+func (s *Sys) SolveFixPublic(assignment frontend.Circuit, popt backend.ProverOption) (Result, *big.Int) {
+	if s.BN == nil {
+		return s.SolveWith(assignment, popt), nil
+	}
+	w, err := frontend.NewWitness(assignment, s.Field)
+	if err != nil {
+		return Result{Err: fmt.Errorf("witness: %w", err), Site: "witness"}, nil
+	}
+	opt, err := backend.NewProverConfig(popt)
+	if err != nil {
+		return Result{Err: err}, nil
+	}
+	c := s.BN
+	a := make(fr.Vector, len(c.Constraints))
+	b := make(fr.Vector, len(c.Constraints))
+	cc := make(fr.Vector, len(c.Constraints))
+	wires, err := c.Solve(w.Vector().(fr.Vector), a, b, cc, opt)
+	if err == nil {
+		return Result{Accepted: true}, nil
+	}
+	res := Result{Err: err, Site: siteOf(err)}
+	var ue *bn.UnsatisfiedConstraintError
+	if !errors.As(err, &ue) || ue.CID < 0 || ue.CID >= len(c.Constraints) || len(wires) < 2 {
+		return res, nil
+	}
+	r := c.Constraints[ue.CID]
+	evalAt := func(le constraint.LinearExpression, x *fr.Element) (acc fr.Element, has bool) {
+		var t fr.Element
+		for _, term := range le {
+			coeff := &c.Coefficients[term.CoeffID()]
+			if term.VID == math.MaxUint32 {
+				acc.Add(&acc, coeff)
+				continue
+			}
+			v := &wires[term.WireID()]
+			if term.WireID() == 1 {
+				v = x
+				has = true
+			}
+			t.Mul(coeff, v)
+			acc.Add(&acc, &t)
+		}
+		return
+	}
+	f := func(x *fr.Element) (fr.Element, int) {
+		l, hl := evalAt(r.L, x)
+		rr, hr := evalAt(r.R, x)
+		o, ho := evalAt(r.O, x)
+		l.Mul(&l, &rr)
+		l.Sub(&l, &o)
+		n := 0
+		for _, h := range []bool{hl, hr, ho} {
+			if h {
+				n++
+			}
+		}
+		if hl && hr {
+			n = 99 // quadratic in the public wire
+		}
+		return l, n
+	}
+	var zero, one fr.Element
+	one.SetOne()
+	f0, n := f(&zero)
+	if n == 0 || n == 99 {
+		return res, nil
+	}
+	f1, _ := f(&one)
+	var slope fr.Element
+	slope.Sub(&f1, &f0)
+	if slope.IsZero() {
+		return res, nil
+	}
+	slope.Inverse(&slope)
+	f0.Neg(&f0)
+	f0.Mul(&f0, &slope)
+	x := new(big.Int)
+	f0.BigInt(x)
+	return res, x
 }
